@@ -1318,6 +1318,10 @@ class _Synchronizer:
 
         # Wait for action future's result to be set with action
         if not self._must_reset:
+            # stop() first flips the node states and then cancels the pending action. If it got there before the action
+            # future was published above, it found nothing to cancel: cancel here instead of waiting forever.
+            if self._supervisor._state not in [Async.RUNNING]:
+                self._f_act.cancel()
             try:
                 step_state, output = self._f_act.result()
                 # print(f"[GET] _step: seq={step_state.seq}, ts={step_state.ts:.2f}")
